@@ -39,7 +39,7 @@ func (fr *Frame) val(v ssa.Value) *Value {
 	case *ssa.Const:
 		return fr.constVal(n)
 	case *ssa.Global:
-		return &Value{T: n.Type(), C: []Term{IntLit(0)}, P: &Ptr{Global: n, RootT: derefT(n.Type())}}
+		return &Value{T: n.Type(), C: []Term{IntLit(-7)}, P: &Ptr{Global: n, RootT: derefT(n.Type())}}
 	case *ssa.Function:
 		return &Value{T: n.Type(), C: []Term{IntLit(int64(fr.x.eng.funcID(n)))}}
 	case *ssa.Builtin:
@@ -97,7 +97,7 @@ func (fr *Frame) execInstr(in ssa.Instruction) {
 		el := derefT(n.Type())
 		if !n.Heap {
 			x.setLocal(st, n, e.zeroValue(el))
-			fr.set(n, &Value{T: n.Type(), C: []Term{IntLit(0)}, P: &Ptr{Local: n, RootT: el}})
+			fr.set(n, &Value{T: n.Type(), C: []Term{IntLit(-7)}, P: &Ptr{Local: n, RootT: el}})
 			return
 		}
 		ref := x.newRef(st, "new_"+n.Name())
@@ -128,7 +128,11 @@ func (fr *Frame) execInstr(in ssa.Instruction) {
 		p := *x.ptrOf(xv)
 		p.Path = append(append([]PathEl(nil), p.Path...), PathEl{Field: n.Field})
 		np := x.normPtr(&p)
-		out := &Value{T: n.Type(), C: []Term{IntLit(0)}, P: np}
+		idt := IntLit(-7) // address of a field of a local/global: never nil
+		if np.Local == nil && np.Global == nil {
+			idt = np.Heap // interior pointer: nil-ness follows the enclosing object
+		}
+		out := &Value{T: n.Type(), C: []Term{idt}, P: np}
 		fr.set(n, out)
 	case *ssa.Field:
 		xv := fr.val(n.X)
@@ -170,9 +174,7 @@ func (fr *Frame) execInstr(in ssa.Instruction) {
 		ln := fr.val(n.Len).term()
 		cp := fr.val(n.Cap).term()
 		fr.safety("make", And(Le(IntLit(0), ln), Le(ln, cp), Le(cp, BigLit(pow2(47)))), "makeslice-len")
-		if x.cur.allocBudget != nil {
-			fr.allocBudget(cp, n)
-		}
+		fr.allocBound(cp)
 		fr.set(n, fr.newSlice(n.Type(), ln, cp))
 	case *ssa.MakeMap:
 		ref := x.newRef(st, "map")
@@ -312,7 +314,7 @@ func (fr *Frame) newSlice(t types.Type, ln, cp Term) *Value {
 	el := t.Underlying().(*types.Slice).Elem()
 	for j, cpn := range e.layout(el) {
 		key, _ := e.heapKey("M", el, j)
-		x.heapSet(fr.cur, key, x.ctx.Name("M", Store(x.heapGet(fr.cur, key), ref, zeroOf(ArrOf(cpn.Sort)))))
+		x.heapSetAt(fr.cur, key, x.ctx.Name("M", Store(x.heapGet(fr.cur, key), ref, zeroOf(ArrOf(cpn.Sort)))), ref)
 	}
 	return &Value{T: t, C: []Term{ref, IntLit(0), ln, cp}}
 }
@@ -785,7 +787,7 @@ func (fr *Frame) typeAssert(n *ssa.TypeAssert) {
 	var res *Value
 	if isIface(at) {
 		// interface-to-interface: succeeds iff non-nil and dynamic type implements it
-		imp := x.ctx.Fresh("implements", SBool)
+		imp := x.implementsTerm(xv.C[0], at)
 		ok = And(Neq(xv.C[0], IntLit(0)), imp)
 		// when every concrete type implementing is unknown we keep it nondeterministic,
 		// except for the empty interface / identical interface
@@ -853,7 +855,7 @@ func (fr *Frame) convert(v *Value, to types.Type) *Value {
 			arr, ln := env.materialise(env.toSeq(v))
 			ref := x.newRef(fr.cur, "b2s")
 			key, _ := x.eng.heapKey("M", el, 0)
-			x.heapSet(fr.cur, key, c.Name("M", Store(x.heapGet(fr.cur, key), ref, arr)))
+			x.heapSetAt(fr.cur, key, c.Name("M", Store(x.heapGet(fr.cur, key), ref, arr)), ref)
 			return &Value{T: to, C: []Term{ref, IntLit(0), ln, ln}}
 		}
 		return fr.havocValue("runes", to)
@@ -924,14 +926,22 @@ func (fr *Frame) runDefers() {
 	}
 }
 
-func (fr *Frame) allocBudget(n Term, in ssa.Instruction) {
+// allocBound: allocations in a function with an allocbound clause stay within it.
+func (fr *Frame) allocBound(n Term) {
 	x := fr.x
-	if x.cur.allocBudget == nil {
+	top := fr
+	for top.parent != nil {
+		top = top.parent
+	}
+	if x.cur.fc == nil || x.cur.fc.AllocBound == nil {
 		return
 	}
-	b := x.cur.allocBudget(fr)
-	if b.S == "" {
+	cl := x.cur.fc.AllocBound
+	env := &SpecEnv{x: x, vars: top.argVars, st: fr.cur, old: top.entrySt, fn: top.fn}
+	b, err := env.EvalInt(cl.E)
+	if err != nil {
+		fr.contractError(*cl, err)
 		return
 	}
-	fr.obligation("alloc", "make-within-budget", fr.reach, Le(n, b), "allocation proportional to input")
+	fr.obligation("alloc", "make-within-allocbound", fr.reach, Le(n, b), "allocation bounded by "+cl.Text)
 }
